@@ -11,6 +11,10 @@
 (*   2. the reference predicate is evaluated on the LOGGED CONCRETE VALUES  *)
 (*      of everything the implementation ACCEPTED; the ghost `bad` collects  *)
 (*      the binding rules an accepted step breaks; invariant C05: bad = {}.  *)
+(*      Two-commitment histories (advance, then the chain may move) are      *)
+(*      judged at the chain view of EACH request; the finding key says       *)
+(*      whether the accepted commitment carried an HTLC over / held an HTLC  *)
+(*      whose payment hash was already in the previous commitment.           *)
 (* Implementation stricter than the reference is counted, not an alarm.     *)
 (* Vacuity guard: every rule must have been the SOLE reason of a refusal     *)
 (* observed on the real code at least once (report.sole_missing).           *)
@@ -40,12 +44,22 @@ RuleCls(r) == CASE r \in {"dust_b", "dust_c", "dust_off", "dust_rcv"} -> "dust"
                 [] r \in {"cltv_abs", "cltv_low", "cltv_high"} -> "cltv"
                 [] OTHER -> r
 
-\* which arithmetic class an accepted commitment is in (part of the finding key)
+\* some HTLC of hs is not in ps (the same direction of the previous commitment of that side) but
+\* has a payment hash that occurs there: another part of a payment, or a replaced HTLC
+KnownHashNewHtlc(hs, ps) ==
+  \E i \in 1..Len(hs) : /\ \A j \in 1..Len(ps) : hs[i] # ps[j]
+                        /\ \E j \in 1..Len(ps) : hs[i].h = ps[j].h
+
+\* which history / arithmetic class an accepted commitment is in (part of the finding key)
 Detail(c, s, ev) ==
   IF ev \notin {"request", "request1", "open"} THEN "-"
   ELSE IF c.kind = "seq" /\ ev = "request" /\ Fresh(s, c.side, c.n, c.req)
             /\ \E t \in s.acc : t[1] = c.side /\ t[2] = c.n
          THEN "changed-contents-for-an-accepted-number"
+  ELSE IF c.kind = "seq" /\ c.seq.adv /\ ev = "request"
+            /\ \E t \in s.acc : t[1] = c.side /\ t[2] = c.n - 1
+                                 /\ (KnownHashNewHtlc(c.req.off, t[3].off) \/ KnownHashNewHtlc(c.req.rcv, t[3].rcv))
+         THEN "htlc-with-a-payment-hash-of-the-previous-commitment"
   ELSE IF c.kind = "seq" /\ c.seq.adv /\ ev = "request"
             /\ \E t \in s.acc : t[1] = c.side /\ t[2] = c.n - 1
                                  /\ (   (\E i \in 1..Len(c.req.off) : \E j \in 1..Len(t[3].off) : c.req.off[i] = t[3].off[j])
